@@ -331,6 +331,21 @@ def guard_eval(repo: Repo) -> RuleRun:
         expect(gac, res, bad, f"length_ratio={ratio}", ("ValueError",))
         if bad:
             r.check(gr.get("specification") == [], gac, "nothing appended on rejection", "Grading.add_chop appends a division before rejecting the length ratio", key=f"length_ratio={ratio}:state")
+    # LoftedShape: EVERY mid sketch must have as many faces as the end sketches, wherever it stands in the list
+    lsi = repo.func("construct.shape.LoftedShape.__init__")
+
+    def sk(nf):
+        return Obj(f"sketch{nf}", faces=[Sym(f"f{i}") for i in range(nf)])
+
+    for label, mids, bad in (
+        ("mid=[5]", [5], False), ("mid=[5,5]", [5, 5], False), ("mid=[12]", [12], True), ("mid=[5,12]", [5, 12], True), ("mid=[12,5]", [12, 5], True),
+        ("mid=[5,12,5]", [5, 12, 5], True), ("mid=[12,12]", [12, 12], True),
+    ):
+        shp = Obj("shape", cls=repo.cls("construct.shape.LoftedShape"))
+        res = _try(Evaluator(repo=repo, module=lsi.module), lsi, [shp, sk(5), sk(5), [sk(k) for k in mids]])
+        expect(lsi, res, bad, f"end sketches with 5 faces, {label}", ("ShapeCreationError",))
+    res = _try(Evaluator(repo=repo, module=lsi.module), lsi, [Obj("shape", cls=repo.cls("construct.shape.LoftedShape")), sk(5), sk(6), None])
+    expect(lsi, res, True, "end sketches with 5 and 6 faces", ("ShapeCreationError",))
     # Cylinder.fill: the filling cylinder's sketch has a fixed number of outer faces; a ring is accepted iff it has as many
     fill_conformal(repo, r)
     # Junction.add_clamp twice
@@ -479,4 +494,42 @@ def lifecycle_state(repo: Repo) -> RuleRun:
 
 lifecycle_state.rule_id = "C20.LIFECYCLE-STATE"
 
-RULES = [one_sided_tol, one_sided_range, guard_eval, guard_table, lifecycle_state]
+def signed_magnitude(repo: Repo) -> RuleRun:
+    """An upper-bound guard 'x > magnitude' (raising) is enforced on one side only when x is a raw, signed number handed in by
+    the caller while the quantity that matters is its magnitude (the same parameter multiplies a direction to build a point):
+    x = -2 passes 'x > 1' although the built radius |x| = 2 exceeds the bound. The guard must compare a non-negative quantity
+    (the built radius / abs(x))."""
+    r = RuleRun(PROP, "C20.SIGNED-MAGNITUDE", floor=1, what="raising upper-bound guards against a geometric magnitude compare a non-negative quantity, not a raw signed parameter")
+    n_guards = 0
+    for fn in sorted(repo.all_functions(), key=lambda f: f.qualname):
+        float_params = {a.arg for a in fn.node.args.args if a.annotation is not None and ast.unparse(a.annotation) in ("float", "int", "Optional[float]", "Union[float, int]")}
+        for n in ast.walk(fn.node):
+            if not (isinstance(n, ast.Compare) and len(n.ops) == 1 and isinstance(n.ops[0], (ast.Gt, ast.GtE, ast.Lt, ast.LtE))):
+                continue
+            guard = _guards_raise(n, fn)
+            if guard is None:
+                continue
+            lhs, rhs = n.left, n.comparators[0]
+            big, small = (lhs, rhs) if isinstance(n.ops[0], (ast.Gt, ast.GtE)) else (rhs, lhs)
+            env = SignEnv(repo, fn)
+            # the bound must be a computed geometric magnitude (norm-derived), not a literal
+            if isinstance(small, ast.Constant) or not env.nonneg(small) or _is_tol(small):
+                continue
+            n_guards += 1
+            raw = isinstance(big, ast.Name) and big.id in float_params and not any(isinstance(x, ast.Assign) and any(isinstance(t, ast.Name) and t.id == big.id for t in x.targets) for x in ast.walk(fn.node))
+            r.check(
+                not raw or env.nonneg(big),
+                fn,
+                f"'{ast.unparse(n)}' compares a non-negative quantity with the bound",
+                f"'{ast.unparse(n)}' guards a raise in {fn.qualname}, but '{ast.unparse(big)}' is the caller's raw signed number while the bound '{ast.unparse(small)}' is a magnitude: a negative "
+                f"value whose magnitude exceeds the bound is accepted (e.g. {ast.unparse(big)} = -2 against a bound of 1) - the precondition is enforced on one side only",
+                guard,
+                key=f"guard:{ast.unparse(big)}>{ast.unparse(small)}",
+            )
+    r.require(n_guards >= 1, "no raising upper-bound guard against a geometric magnitude found (Annulus.__init__ was the confirmed instance)")
+    return r
+
+
+signed_magnitude.rule_id = "C20.SIGNED-MAGNITUDE"
+
+RULES = [one_sided_tol, one_sided_range, guard_eval, guard_table, lifecycle_state, signed_magnitude]
